@@ -112,3 +112,11 @@ p = _ensure("C15", "Range requests on cached resources return exactly the reques
 p["streams"] += [S("sysc", 6000, 80000)]
 p["rule"] += _SYSC_RULE + "; requests may carry Range: bytes=0-3; oracle C15: no origin contact of a cacheable request carries a Range header (cold fill, revalidating fetch, re-fill after a failed fetch)"
 p["trivial_labels"] = list(p.get("trivial_labels", [])) + ["no-origin", "unparsed"]
+
+# free-running concurrency streams (search support around the proved theorems; see harness/streams/conc.go)
+p = _ensure("C12", "Concurrent requests for one resource share one origin fetch, all served fully")
+p["streams"] += [S("concget", 16, 64, 2)]
+p["rule"] += " | concget: per case 150 rounds of 8 goroutines released from a barrier into the public Cache.Get for one fresh key; exactly one may become the writer (free-running: search support, not a proof)"
+p = _ensure("C02", "Destination URL = rule destination + wildcard capture; query kept verbatim")
+p["streams"] += [S("concroute", 16, 64, 2)]
+p["rule"] += " | concroute: 8 goroutines x 300 requests with different queries routed through one router at once (destinations with and without $1); every outgoing request must carry its own query (free-running: search support)"
